@@ -994,6 +994,39 @@ static int op_dynfind(int argc, char **argv, FILE *out) {
     return 1;
 }
 
+/* connstate <type 1 tls | 2 tcp | 3 dtls> <state> <reconnect 0|1>: the REAL connecter of that transport is entered with the server in
+   the given state; its last successful connection is "just now", so that it gives up (its wait would exceed the time it
+   is allowed) before it touches the network. Prints the server's state afterwards: what a request arriving while the connection is
+   being set up would find. */
+static int op_connstate(int argc, char **argv, FILE *out) {
+    int type, r;
+    struct clsrvconf conf;
+    struct server srv;
+    const struct protodefs *pd;
+    if (argc != 3)
+        return 0;
+    type = atoi(argv[0]);
+    if (type < 1 || type > 3)
+        return 0;
+    pd = protoinits[type](type);
+    if (!pd || !pd->connecter)
+        return 0;
+    memset(&conf, 0, sizeof(conf));
+    memset(&srv, 0, sizeof(srv));
+    conf.name = "peer";
+    conf.type = type;
+    conf.pdef = (struct protodefs *)pd;
+    srv.conf = &conf;
+    srv.sock = -1;
+    srv.state = atoi(argv[1]);
+    pthread_mutex_init(&srv.lock, NULL);
+    gettimeofday(&srv.connecttime, NULL);
+    r = pd->connecter(&srv, 1, atoi(argv[2]));
+    fprintf(out, "st=%d ret=%d", srv.state, r);
+    pthread_mutex_destroy(&srv.lock);
+    return 1;
+}
+
 /* locks: the (held > acquired) mutex pairs the real code has exhibited so far in this process */
 static int op_locks(int argc, char **argv, FILE *out) {
     (void)argv;
@@ -1296,6 +1329,7 @@ int h_rsp_op(const char *op, int argc, char **argv, FILE *out) {
     if (!strcmp(op, "locks")) return op_locks(argc, argv, out);
     if (!strcmp(op, "dynrealm")) return op_dynrealm(argc, argv, out);
     if (!strcmp(op, "dynfind")) return op_dynfind(argc, argv, out);
+    if (!strcmp(op, "connstate")) return op_connstate(argc, argv, out);
     if (!strcmp(op, "idle")) return op_idle(argc, argv, out);
     if (!strcmp(op, "rxeval")) return op_rxeval(argc, argv, out);
     if (!strcmp(op, "reset")) return op_reset(argc, argv, out);
